@@ -493,7 +493,7 @@ func TestCheck(t *testing.T) {
 		r.Distinct(g.shape)
 	}
 
-	n := r.Pick(300_000, 30_000_000)
+	n := r.Pick(300_000, 20_000_000)
 	vh.Parallel(workers, workers, func(w int) {
 		rng := r.Rand("gen", w)
 		for k := 0; k < n/workers; k++ {
